@@ -510,6 +510,9 @@ type c19Runner struct {
 	writes   []memds.WriteEvent
 	onFinish func(o *c19Op)            // called by the controller when an operation completes or crashes
 	onStep   func(newWrites []memds.WriteEvent) // called after every scheduling step with the writes it produced
+	// faultHook may decide the fault for a call itself (targeted fault scenarios); ok=false leaves
+	// the decision to the weighted draw.
+	faultHook func(c *memds.Call, o *c19Op) (f memds.Fault, ok bool)
 }
 
 func c19NewRunner(t *rapid.T, w *c19World, f c19FaultWeights) *c19Runner {
@@ -635,7 +638,11 @@ func (r *c19Runner) stepOnce(calls []*memds.Call) {
 	o := r.byOp[c.Op]
 	f := memds.FaultNone
 	fw := r.faults
-	if fw.Conflict+fw.Error+fw.CrashBefore+fw.CrashAfter > 0 {
+	hooked := false
+	if r.faultHook != nil {
+		f, hooked = r.faultHook(c, o)
+	}
+	if !hooked && fw.Conflict+fw.Error+fw.CrashBefore+fw.CrashAfter > 0 {
 		// rapid's integer generators favour the bounds of the range, so the fault bands sit in
 		// the middle of a wider range (0 = no fault is what cases shrink to).
 		x := rapid.IntRange(0, 9999).Draw(r.t, "fault") - 5000
